@@ -665,6 +665,59 @@ def rule_k(ctx, ls):
     ctx.floor(R, 1)
 
 
+def rule_l(ctx):
+    R = "C08.l"
+    ctx.rule(R, "the flux block that the reduced formulations eliminate is diagonal: eliminate_flux inverts jacobian.diagonal()[flux_slice] only, so every "
+             "face mass matrix FVMass can hand out (for every accepted `lumping` value) must be built by a diagonal constructor; a consistent "
+             "(non-lumped) mass matrix makes flux_reduced / pressure solve another system than full")
+    m = ctx.model
+    ctx.consult("darsia.utils.fv")
+    f = m.func("darsia.utils.fv", "FVMass.__init__")
+    DIAG = ("sps.diags", "sps.eye", "sps.identity", "sps.dia_matrix", "scipy.sparse.diags")
+    # definitions of the local that becomes self.mat, outside statements that follow a raise in the same block (dead code)
+    names = {norm(a.value) for a in ast.walk(f.node) if isinstance(a, ast.Assign) and any(norm(t) == "self.mat" for t in a.targets) and isinstance(a.value, ast.Name)}
+    defs = []
+
+    def visit(stmts):
+        for st in stmts:
+            if isinstance(st, ast.Raise):
+                return   # what follows in this block is unreachable
+            if isinstance(st, ast.Assign) and any(isinstance(t, ast.Name) and t.id in names for t in st.targets):
+                defs.append(st)
+            for fld in ("body", "orelse"):
+                sub = getattr(st, fld, None)
+                if isinstance(sub, list) and not isinstance(st, (ast.FunctionDef, ast.ClassDef)):
+                    visit(sub)
+    visit(f.node.body)
+    ctx.need(defs, "FVMass.__init__: definitions of the mass matrix not found")
+    for st in defs:
+        ctx.instance(R)
+        v = st.value
+        while isinstance(v, ast.Call) and isinstance(v.func, ast.Attribute) and v.func.attr in ("tocsc", "tocsr", "asformat", "astype", "copy") :
+            v = v.func.value
+        if isinstance(v, ast.BinOp) and isinstance(v.op, ast.Mult):
+            # scalar times matrix
+            for side in (v.left, v.right):
+                w = side
+                while isinstance(w, ast.Call) and isinstance(w.func, ast.Attribute) and w.func.attr in ("tocsc", "tocsr", "asformat", "astype", "copy"):
+                    w = w.func.value
+                if isinstance(w, ast.Call) and norm(w.func) in DIAG:
+                    v = w
+        if isinstance(v, ast.Call) and norm(v.func) not in DIAG:
+            # a helper of the class that returns the matrix: judged by its return expression
+            t_ = m.resolve_call(v, f)
+            if t_ is not None and hasattr(t_, "node") and isinstance(t_.node, ast.FunctionDef):
+                rets_ = [r_.value for r_ in ast.walk(t_.node) if isinstance(r_, ast.Return) and r_.value is not None]
+                if len(rets_) == 1:
+                    v = expand(t_.node, rets_[0])
+        diag = isinstance(v, ast.Call) and norm(v.func) in DIAG
+        full = expand(f.node, st.value)
+        offd = any(isinstance(x, ast.Call) and norm(x.func) in ("sps.coo_matrix", "sps.csc_matrix", "sps.csr_matrix", "sps.bmat", "sps.lil_matrix") for x in ast.walk(full))
+        ctx.ob(R, f.qname, f"`{norm(st.targets[0])} = ...` is a diagonal matrix", diag and not offd,
+               f"`{norm(st)[:110]}` builds a matrix with off-diagonal entries: the Schur complement of the reduced formulations uses its diagonal only" if offd else f"diagonal constructor not found in `{norm(st)[:80]}`", st, evidence=offd)
+    ctx.floor(R, 2)
+
+
 def run(ctx):
     from .common import rule_abs_tolerance
     rule_abs_tolerance(ctx, "C08.j", [f for f in ctx.model.cls(WAS, BASE).methods.values()] + [f for k in ctx.model.mod("darsia.utils.linalg").classes.values() for f in k.methods.values()], "all formulations must agree for every positive weighting and right-hand side")
@@ -682,6 +735,7 @@ def run(ctx):
     rule_h(ctx)
     rule_i(ctx, fa, ta, acc_f, acc_t, ls)
     rule_k(ctx, ls)
+    rule_l(ctx)
     # callers of linear_solve: a reused factorisation must belong to the matrix being solved (C04.g)
     from . import c04
     from .common import shared
